@@ -79,6 +79,38 @@ def collection_chain(ctx, v, depth=0):
     return ads_all, ("unknown", v), helpers
 
 
+def raw_scan_items(ctx, fn):
+    """Item roots of loops in fn that iterate the *stored* registry entries `(key, PairInfoRaw)` themselves: a PAIRS scan
+    collected without map / filter / bound (directly or through helpers).  {item_root: loop}"""
+    P = ctx.P
+    out = {}
+    for l in common.loops(P, fn):
+        if not l["is_loop"]:
+            continue
+        try:
+            ads, kind, src = common.iter_chain(l["iter"])
+            if ads:
+                continue
+            ads2, source, helpers = collection_chain(ctx, src)
+        except Exception:
+            continue
+        if ads2 or source[0] != "scan":
+            continue
+        # the elements really are the stored entries: the iterator yields `(Vec<u8>, PairInfoRaw)` (a push-built vector of
+        # humanised records has no adaptor either, but a different element type)
+        ety = fn.body.blocks[l["next_bb"]]["term"].get("dest", {}).get("ty", "")
+        if not re.match(r"^std::option::Option<\(std::vec::Vec<u8>, %s\)>$" % ctx.N.rx("PairInfoRaw"), ety):
+            continue
+        sc = source[1]
+        if "|".join(sorted(ctx.roots(sc[4][0]))) != ctx.N.PAIRS or not re.search(r"Map::range$", generic_path(sc[3])):
+            continue
+        lo = "|".join(sorted(ctx.roots(sc[4][2]))) if len(sc[4]) > 2 else "?"
+        hi = "|".join(sorted(ctx.roots(sc[4][3]))) if len(sc[4]) > 3 else "?"
+        if "None" in lo and "None" in hi:
+            out[l["item_root"]] = l
+    return out
+
+
 def _run(ctx):
     P = ctx.P
     r1 = ctx.inst("C17.R1", "the decimals handler walks the WHOLE registry: its loop iterates a collection collected from an unbounded PAIRS scan (no take/skip/filter), through helpers", floor=2)
@@ -227,6 +259,13 @@ def _run(ctx):
 
     # ---- R3 ----------------------------------------------------------------------------------------------
     item = walk["item_root"]
+    # raw mode: the walk iterates the stored entries (key, PairInfoRaw) themselves instead of humanised records that are
+    # looked up again by key: the record is the scanned value, its key the scanned key
+    raw_mode = item in raw_scan_items(ctx, h)
+    item_key = None
+    if raw_mode:
+        item_key = item + ".0"
+        item = item + ".1"
     loop_blocks = body.reachable_from(walk["some_edge"][1], cut_edges=(walk["none_edge"],))
     try:
         qden = ctx.N.native_denom
@@ -290,6 +329,7 @@ def _run(ctx):
         conds = [c for c in common.control_conditions(P, h, sb) if c["sw"] in loop_blocks and c["sw"] != walk["switch"] and (sym is None or c["sw"] != sym["switch"])]
         idx = None
         extra = []
+        skips = []
         have_native = have_eq = False
         for c in conds:
             cd = c["cond"]
@@ -381,7 +421,11 @@ def _run(ctx):
                         idx = int(m_e.group(1))
                         have_eq = True
                         continue
-            extra.append("; ".join(sorted(lemmas.cond_strings(ctx, [c]))))
+            txt_ = "; ".join(sorted(lemmas.cond_strings(ctx, [c])))
+            if re.match(r"^eq\(.*\) is \[False\]$", txt_) and ".asset_decimals[" in txt_ and DEC in txt_:
+                skips.append(txt_)      # candidate no-op skip `stored decimals[i] != new`: validated once the record is known
+                continue
+            extra.append(txt_)
         if extra:
             r3.fail("C17.R3:extra-condition:%s" % ("|".join(extra))[:150], h.path, where,
                     "the registry update is additionally conditioned on {%s}: an affected pair can be skipped" % "; ".join(extra)[:300])
@@ -394,10 +438,31 @@ def _run(ctx):
         recs = "|".join(sorted(ctx.roots(rec)))
         mload = re.search(r"mload\(%s\)\[([^\]]*)\]" % re.escape(PAIRS), recs)
         key = "|".join(sorted(ctx.roots(sv[4][2])))
-        if not mload or mload.group(1) != key:
-            r3.fail("C17.R3:record-key:%s" % idx, h.path, where, "the record is saved under %s but was read under %s" % (key[:80], mload.group(1)[:80] if mload else "?"))
+        if raw_mode:
+            if key != item_key:
+                r3.fail("C17.R3:record-key:%s" % idx, h.path, where, "the record is saved under %s, expected the scanned entry's own key" % key[:80])
+                continue
+            stored = item
+        else:
+            if not mload or mload.group(1) != key:
+                r3.fail("C17.R3:record-key:%s" % idx, h.path, where, "the record is saved under %s but was read under %s" % (key[:80], mload.group(1)[:80] if mload else "?"))
+                continue
+            stored = "mload(%s)[%s]" % (PAIRS, key)
+        # a position may be skipped when the record already holds the new value there: rewriting it is a no-op, and the pair
+        # holds the same value by the invariant this property states (record == self-description: R5, R6, C16.R6)
+        bad_skip = False
+        for sk in skips:
+            if idx == "i":
+                ok_sk = False
+            else:
+                ok_sk = sk == "eq(%s) is [False]" % ", ".join(sorted(["%s.asset_decimals[%d]" % (stored, idx), DEC]))
+            if not ok_sk:
+                bad_skip = True
+                r3.fail("C17.R3:extra-condition:%s" % sk[:150], h.path, where, "the registry update is additionally conditioned on {%s}: an affected pair can be skipped" % sk[:300])
+        if bad_skip:
             continue
-        stored = "mload(%s)[%s]" % (PAIRS, key)
+        if skips:
+            r3.site("position %s is skipped only when the record already holds the new value there (no-op)" % idx)
         if idx == "i":
             # `decimals[i] = new` on the stored array, i ranging over both positions
             want_arr = "X:upd(%s.asset_decimals;[@%s];%s)" % (stored, idx_root(sym), DEC)
